@@ -280,6 +280,15 @@ def canvas_validate(pid, v, scs, name, count_tags, workers=12, timeout=3000, onl
                 if "<= a" in msg:
                     v.violation(sc, {"tag": "C18", "via": "sw-composite debug assertion: " + msg, "call_index": tup[3], "op": tup[4],
                                      "sig": canvas_sig(sc, "C18", tup[4], tup[3], msg)})
+    rc = sum(r.get("rec_checked", 0) for r in recs)
+    if rc:
+        v.extra["recorded_states_reproduced"] = v.extra.get("recorded_states_reproduced", 0) + rc
+        mm = [(r.get("id"), r["rec_mismatch"]) for r in recs if r.get("rec_mismatch")]
+        if mm:
+            # the replay of a recorded execution differs from the recording: the binding is off for those
+            v.extra["recorded_states_mismatch"] = mm[:20]
+            v.inconclusive += len(mm)
+            log("[%s] WARNING: replay differs from the recorded execution for %s" % (pid, mm[:5]))
     n02 = n03 = 0
     for tup in t.tuples("SUM"):
         n02 += tup[3]
@@ -303,6 +312,17 @@ def canvas_validate(pid, v, scs, name, count_tags, workers=12, timeout=3000, onl
     v.evaluations += len(scs)
     v.traces += sum(len(r.get("targets", [])) for r in recs)
     return found
+
+
+def repo_test_scenarios(pid, v):
+    """Executions recorded from the repository's own unit tests (API tracer), converted to canvas scenarios."""
+    from . import testtrace
+    tdir = testtrace.record(pid)
+    scs, st = testtrace.convert(tdir)
+    v.extra["repo_tests_recorded"] = st
+    v.assumptions.append("recorded executions of the repository's unit tests (src/verif_trace.rs hooks) are replayed by the harness, which must "
+                         "reproduce every recorded pixel state, and validated like generated scenarios")
+    return scs
 
 
 def canvas_gen(pid, v, focus, D, ndraw, draws=1, initk="distinct", simulate=None, depth=None, seed=None, salt=0, size=(5, 5)):
@@ -329,6 +349,7 @@ def c02(tier, seed):
     scs += canvas_gen("C02", v, "frame", 3, 3, draws=2, simulate=1500 if th else 200, depth=6, seed=seed + 2, salt=seed, size=(9, 6))
     scs += drive("C02", "canvas", seed, 3000 if th else 400)
     v.exhaustive = True
+    scs += repo_test_scenarios("C02", v)
     canvas_validate("C02", v, scs, "all", {"C02", "C02N", "C06L"})
     v.samples = [scs[0], scs[-1]]
     return v.finish()
@@ -349,6 +370,7 @@ def c03(tier, seed):
     scs += canvas_gen("C03", v, "frame", 3, 3, draws=2, simulate=1500 if th else 200, depth=6, seed=seed + 2, salt=seed + 5, size=(9, 6))
     scs += drive("C03", "canvas", seed + 100, 3000 if th else 400)
     v.exhaustive = True
+    scs += repo_test_scenarios("C03", v)
     canvas_validate("C03", v, scs, "all", {"C03"})
     v.samples = [scs[0], scs[-1]]
     return v.finish()
@@ -439,6 +461,7 @@ def c05(tier, seed):
     scs += canvas_gen("C05", v, "clip", 5, 3, draws=2, simulate=5000 if th else 900, depth=9, seed=seed, salt=seed)
     scs += drive("C05", "canvas", seed + 200, 2500 if th else 300)
     v.exhaustive = True
+    scs += repo_test_scenarios("C05", v)
     canvas_validate("C05", v, scs, "all", {"C02", "C03", "C02N", "C06D"})
     v.samples = [scs[0], scs[-1]]
     return v.finish()
@@ -462,6 +485,7 @@ def c06(tier, seed):
     scs += canvas_gen("C06", v, "layer", 5, 3, draws=3, simulate=5000 if th else 900, depth=10, seed=seed, salt=seed)
     scs += drive("C06", "canvas", seed + 300, 2500 if th else 300)
     v.exhaustive = True
+    scs += repo_test_scenarios("C06", v)
     canvas_validate("C06", v, scs, "all", {"C03", "C06L", "C06D", "C11T", "C02", "C02N", "C07"},
                     only_panic_ops={"push_layer", "pop_layer"})
     v.samples = [scs[0], scs[-1]]
@@ -481,6 +505,7 @@ def c10(tier, seed):
     scs += canvas_gen("C10", v, "history", 4, 4, draws=4, simulate=6000 if th else 350, depth=10, seed=seed, salt=seed)
     scs += drive("C10", "canvas-history", seed + 400, 2500 if th else 300)
     v.exhaustive = True
+    scs += repo_test_scenarios("C10", v)
     canvas_validate("C10", v, scs, "all", {"C10", "C10I"})
     v.samples = [scs[0], scs[-1]]
     return v.finish()
@@ -853,6 +878,7 @@ def c07(tier, seed):
     scs2 += canvas_gen("C07", v, "layer", 4, 3, draws=2, simulate=2000 if th else 300, depth=8, seed=seed, salt=seed + 7)
     scs2 += drive("C07", "canvas", seed + 600, 3000 if th else 400)
     scs2 += known_scenarios("C07", "canvas")
+    scs2 += repo_test_scenarios("C07", v)
     canvas_validate("C07", v, scs2, "canvas", {"C07"})
     v.samples = [scs[0], scs[len(scs) // 2], scs2[0]]
     return v.finish()
